@@ -22,3 +22,154 @@ package hevc
 //@   modifies
 //@   ensures sps.Conformance_window_flag == 1 ==> h == int(sps.Pic_height_in_luma_samples) - subHeightC5(sps)*(int(sps.Conf_win_top_offset)+int(sps.Conf_win_bottom_offset))
 //@   ensures sps.Conformance_window_flag != 1 ==> h == int(sps.Pic_height_in_luma_samples)
+
+// ---- SPS syntax guards (H.265 7.3.2.2, 7.3.7): conditions and repetition counts of the decoder's control structure ----
+//@ import "github.com/cnotch/ipchub/utils"
+//@ import "github.com/cnotch/ipchub/utils/bits"
+//@ import "fmt"
+//@ import "errors"
+//@ import "runtime/debug"
+//@ extern func utils.RemoveH264or5EmulationBytes(data []byte) (out []byte)
+//@   modifies
+//@ extern func fmt.Errorf(format string, a ...interface{}) (err error)
+//@   modifies
+//@   ensures err != nil
+//@ extern func errors.New(text string) (err error)
+//@   modifies
+//@   ensures err != nil
+//@ extern func debug.Stack() (b []byte)
+//@   modifies
+//@ extern func bits.NewReader(buf []byte) (r *bits.Reader)
+//@   modifies
+//@   fresh r
+// the bit reader as this package sees it (its own contracts: package bits): a read consumes bits and yields a value of
+// its width; running out of data panics (index out of range) and is contained by Decode's recover
+//@ extern func (r *bits.Reader) ReadBit() (res uint8)
+//@   panics
+//@   requires r != nil
+//@   modifies *r
+//@   ensures res <= 1
+//@ extern func (r *bits.Reader) ReadUint8(n int) (res uint8)
+//@   panics
+//@   requires r != nil
+//@   modifies *r
+//@   ensures 0 < n && n < 8 ==> int(res) < 1<<uint(n)
+//@ extern func (r *bits.Reader) ReadUint16(n int) (res uint16)
+//@   panics
+//@   requires r != nil
+//@   modifies *r
+//@ extern func (r *bits.Reader) ReadUint32(n int) (res uint32)
+//@   panics
+//@   requires r != nil
+//@   modifies *r
+//@ extern func (r *bits.Reader) ReadUe() (res uint32)
+//@   panics
+//@   requires r != nil
+//@   modifies *r
+//@ extern func (r *bits.Reader) ReadUe8() (res uint8)
+//@   panics
+//@   requires r != nil
+//@   modifies *r
+//@ extern func (r *bits.Reader) ReadUe16() (res uint16)
+//@   panics
+//@   requires r != nil
+//@   modifies *r
+//@ extern func (r *bits.Reader) ReadSe8() (res int8)
+//@   panics
+//@   requires r != nil
+//@   modifies *r
+//@ extern func (r *bits.Reader) ReadSe16() (res int16)
+//@   panics
+//@   requires r != nil
+//@   modifies *r
+//@ func (h *H265RawNALUnitHeader) decode(r *bits.Reader) (err error)
+//@   trusted
+//@   panics
+//@   requires h != nil && r != nil
+//@   modifies *h, *r
+//@   ensures err == nil
+//@ func (ptl *H265RawProfileTierLevel) decode(r *bits.Reader, profile_present_flag bool, max_num_sub_layers_minus1 int) (err error)
+//@   trusted
+//@   panics
+//@   requires ptl != nil && r != nil
+//@   modifies *ptl, *r
+//@ func (sl *H265RawScalingList) decode(r *bits.Reader) (err error)
+//@   trusted
+//@   panics
+//@   requires sl != nil && r != nil
+//@   modifies *sl, *r
+//@ func (vui *H265RawVUI) decode(r *bits.Reader, sps *H265RawSPS) (err error)
+//@   trusted
+//@   panics
+//@   requires vui != nil && r != nil && sps != nil
+//@   modifies *vui, *r
+//@ func (vui *H265RawVUI) setDefault(sps *H265RawSPS) ()
+//@   trusted
+//@   requires vui != nil
+//@   modifies *vui
+// default contract of the short-term RPS decoder for callers (may panic on a malformed stream); verified variant below
+//@ func (ps *H265RawSTRefPicSet) decode(r *bits.Reader, st_rps_idx uint8, sps *H265RawSPS) (err error)
+//@   trusted
+//@   panics
+//@   requires ps != nil && r != nil && sps != nil
+//@   modifies *ps, *r
+
+// sps_max_dec_pic_buffering_minus1 / sps_max_num_reorder_pics / sps_max_latency_increase_plus1 are read for
+//   i = (sps_sub_layer_ordering_info_present_flag ? 0 : sps_max_sub_layers_minus1) .. sps_max_sub_layers_minus1
+// st_ref_pic_set(i) is read num_short_term_ref_pic_sets times; the VUI only when vui_parameters_present_flag is set
+//@ func (sps *H265RawSPS) Decode(data []byte) (err error)
+//@   recovers
+//@   requires sps != nil
+//@   modifies all()
+//@   local r *bits.Reader
+//@   local i uint8
+//@   local loopStart uint8
+//@   loop 0: modifies sps.Sps_max_dec_pic_buffering_minus1[:], sps.Sps_max_num_reorder_pics[:], sps.Sps_max_latency_increase_plus1[:], *r
+//@   loop 0: invariant r != nil && sps == old(sps) && loopStart <= i && int(loopStart) == iteInt(sps.Sps_sub_layer_ordering_info_present_flag == 1, 0, int(sps.Sps_max_sub_layers_minus1))
+//@   loop 0: invariant sps.Sps_max_sub_layers_minus1 < 8 && int(i) <= int(sps.Sps_max_sub_layers_minus1) + 1
+//@   loop 0: exit int(i) == int(sps.Sps_max_sub_layers_minus1) + 1
+
+// ---- st_ref_pic_set( stRpsIdx ) with inter_ref_pic_set_prediction_flag == 1 (7.3.7, 7.4.8) ---------------------------
+// variant "inter": the executions that take the prediction branch inside an SPS (stRpsIdx != num_short_term_ref_pic_sets,
+// so delta_idx_minus1 is inferred 0 and no ue(v) count is read; the clause assume[after:ReadUe8] false scopes the variant
+// to those executions, it assumes nothing about them). For every reference set with NumNegativePics + NumPositivePics <= 15
+// (the standard's bound, sps_max_dec_pic_buffering_minus1 <= 15) and every value of the flags read from the stream, the
+// derivation terminates without a run-time panic (every index in range) and yields counts that again fit the arrays.
+//@ spec func rpsFits(ps *H265RawSTRefPicSet) bool = int(ps.Num_negative_pics) + int(ps.Num_positive_pics) <= 15
+//@ spec func okRef(ps *H265RawSTRefPicSet, ref *H265RawSTRefPicSet, sps *H265RawSPS, idx uint8, ndp uint8) bool = 1 <= idx && int(idx) < len(sps.St_ref_pic_set) && ref == &sps.St_ref_pic_set[int(idx)-1] && ps == &sps.St_ref_pic_set[int(idx)] && rpsFits(ref) && ndp == ref.Num_negative_pics + ref.Num_positive_pics
+//@ func (ps *H265RawSTRefPicSet) decode(r *bits.Reader, st_rps_idx uint8, sps *H265RawSPS) (err error)
+//@   variant inter
+//@   requires ps != nil && r != nil && sps != nil && 1 <= st_rps_idx && int(st_rps_idx) < len(sps.St_ref_pic_set) && st_rps_idx != sps.Num_short_term_ref_pic_sets
+//@   requires ps == &sps.St_ref_pic_set[int(st_rps_idx)] && rpsFits(&sps.St_ref_pic_set[int(st_rps_idx)-1])
+//@   modifies *ps, *r
+//@   assume[after:ReadUe8] false
+//@   nopanic ReadBit ReadUe16 ReadUe8
+//@   terminates
+//@   local j int
+//@   local i int
+//@   local ref *H265RawSTRefPicSet
+//@   local num_delta_pocs uint8
+//@   local num_ref_pics uint8
+// used_by_curr_pic_flag[j] / use_delta_flag[j] for j = 0 .. NumDeltaPocs[RefRpsIdx]
+//@   loop 0: invariant 0 <= j && j <= int(num_delta_pocs) + 1 && okRef(ps, ref, sps, st_rps_idx, num_delta_pocs)
+//@   loop 0: decreases int(num_delta_pocs) + 1 - j
+// the reference set in delta-array form
+//@   loop 1: invariant 0 <= i && i <= int(ref.Num_negative_pics) && okRef(ps, ref, sps, st_rps_idx, num_delta_pocs)
+//@   loop 1: decreases int(ref.Num_negative_pics) - i
+//@   loop 2: invariant 0 <= i && i <= int(ref.Num_positive_pics) && okRef(ps, ref, sps, st_rps_idx, num_delta_pocs)
+//@   loop 2: decreases int(ref.Num_positive_pics) - i
+// negative pictures of the new set (7-61): at most one per candidate, so the count never exceeds the candidates seen
+//@   loop 3: invariant -1 <= j && j <= int(ref.Num_positive_pics) - 1 && 0 <= i && i <= int(ref.Num_positive_pics) - 1 - j && okRef(ps, ref, sps, st_rps_idx, num_delta_pocs)
+//@   loop 3: decreases j + 1
+//@   loop 4: invariant 0 <= j && j <= int(ref.Num_negative_pics) && 0 <= i && i <= int(ref.Num_positive_pics) + 1 + j && okRef(ps, ref, sps, st_rps_idx, num_delta_pocs)
+//@   loop 4: decreases int(ref.Num_negative_pics) - j
+//@   loop 5: invariant 0 <= i && i <= int(ps.Num_negative_pics) && int(ps.Num_negative_pics) <= 16 && okRef(ps, ref, sps, st_rps_idx, num_delta_pocs)
+//@   loop 5: decreases int(ps.Num_negative_pics) - i
+// positive pictures (7-62)
+//@   loop 6: invariant -1 <= j && j <= int(ref.Num_negative_pics) - 1 && 0 <= i && i <= int(ref.Num_negative_pics) - 1 - j && int(ps.Num_negative_pics) <= 16 && okRef(ps, ref, sps, st_rps_idx, num_delta_pocs)
+//@   loop 6: decreases j + 1
+//@   loop 7: invariant 0 <= j && j <= int(ref.Num_positive_pics) && 0 <= i && i <= int(ref.Num_negative_pics) + 1 + j && int(ps.Num_negative_pics) <= 16 && okRef(ps, ref, sps, st_rps_idx, num_delta_pocs)
+//@   loop 7: decreases int(ref.Num_positive_pics) - j
+//@   loop 8: invariant 0 <= i && i <= int(ps.Num_positive_pics) && int(ps.Num_positive_pics) <= 16 && int(ps.Num_negative_pics) <= 16 && okRef(ps, ref, sps, st_rps_idx, num_delta_pocs)
+//@   loop 8: decreases int(ps.Num_positive_pics) - i
+//@   ensures err == nil ==> int(ps.Num_negative_pics) <= 16 && int(ps.Num_positive_pics) <= 16
